@@ -1,6 +1,7 @@
 (* C02 — union / intersect / set_diff are the Boolean set operations on the time line.
-   Statements only; proofs in Proofs/InterDiffProofs.v, UnionProofs.v, C02Top.v. *)
-From Verif Require Import Base.Prelude Model.Iset Proofs.InterDiffProofs Proofs.UnionProofs Proofs.C02Top Proofs.MeasureProofs.
+   Statements first (proofs in Proofs/InterDiffProofs.v, UnionProofs.v, C02Top.v, MeasureProofs.v); the public-result forms at the end of
+   the file come with their lemmas (Proofs/*.v are shared with other properties and were left untouched). *)
+From Verif Require Import Base.Prelude Model.Iset Proofs.BaseLemmas Proofs.InterDiffProofs Proofs.UnionProofs Proofs.FixIsetProofs Proofs.C02Top Proofs.MeasureProofs.
 
 (* --- the property's own quantifier: public results (kernel + constructor), every instant farther
        than 1 us from every endpoint of A and B --- *)
@@ -100,6 +101,298 @@ Proof.
                              |exact (proj1 (union_empty A))|exact (proj2 (union_empty A))].
 Qed.
 Print Assumptions C02_idempotent_absorbing.
+
+(* ====================================================================================================
+   The same clauses on the PUBLIC results (kernel output re-entering the constructor), and the list-level
+   commutativity of the union.  The lemmas are proved here (Proofs/*.v are shared with other properties). *)
+
+(* ---- list-level commutativity of the union kernel ---- *)
+Lemma canonical_tl A : canonical A -> canonical (tl A).
+Proof. destruct A as [|[s e] r]; simpl; tauto. Qed.
+
+Ltac dand := repeat match goal with H : _ /\ _ |- _ => destruct H end.
+Ltac cmp := repeat match goal with |- context [Z.ltb ?a ?b] => destruct (Z.ltb_spec a b) | |- context [Z.leb ?a ?b] => destruct (Z.leb_spec a b) end.
+
+Lemma union_go_comm : forall fuel chain A B, canonical A -> canonical B ->
+  union_go fuel chain A B = union_go fuel chain B A.
+Proof.
+  induction fuel as [|f IH]; intros chain A B HA HB; [reflexivity|].
+  destruct chain as [ns|]; cbn [union_go].
+  - destruct A as [|[s1 e1] A']; destruct B as [|[s2 e2] B']; try reflexivity.
+    rewrite (Z.max_comm e2 e1).
+    destruct A' as [|[s1' e1'] A'']; destruct B' as [|[s2' e2'] B'']; simpl in HA, HB; dand;
+      cmp; try lia; cbn [tl]; try reflexivity; try (f_equal; apply IH; simpl; tauto); try (apply IH; simpl; tauto).
+  - destruct A as [|[s1 e1] A']; destruct B as [|[s2 e2] B']; try reflexivity.
+    simpl in HA, HB. dand. rewrite (Z.min_comm s2 s1).
+    cmp; try lia; try (f_equal; apply IH; simpl; tauto); try (apply IH; simpl; tauto).
+Qed.
+
+Lemma union_comm A B : canonical A -> canonical B -> k_union A B = k_union B A.
+Proof. intros HA HB. unfold k_union. rewrite (Nat.add_comm (length B) (length A)). apply union_go_comm; assumption. Qed.
+
+(* ---- the constructor on a raw union output: it only trims at touches ---- *)
+Fixpoint trim_go (ns ne : Z) (W : iset) : iset :=
+  match W with
+  | [] => close_pending ns ne None
+  | (s, e) :: r => close_pending ns ne (Some s) ++ trim_go s e r
+  end.
+Definition trim_touches (W : iset) : iset := match W with [] => [] | (s, e) :: r => trim_go s e r end.
+
+Lemma fix_go_trim : forall r ns ne, weakly_canonical ((ns, ne) :: r) ->
+  fix_go (Some (ns, ne, ne)) r = trim_go ns ne r.
+Proof.
+  induction r as [|[s e] r IH]; intros ns ne H; [reflexivity|].
+  simpl in H. destruct H as (H1 & H2 & H3). cbn [fix_go trim_go].
+  destruct (Z.ltb_spec s ne); [lia|].
+  assert (s < e) by (simpl in H3; tauto).
+  destruct (Z.leb_spec e s); [lia|]. f_equal. apply IH. exact H3.
+Qed.
+
+Lemma fix_iset_trim W : weakly_canonical W -> fix_iset W = trim_touches W.
+Proof.
+  destruct W as [|[s e] r]; [reflexivity|]. intros H. unfold fix_iset. cbn [fix_go trim_touches].
+  assert (s < e) by (simpl in H; tauto). destruct (Z.leb_spec e s); [lia|]. apply fix_go_trim. exact H.
+Qed.
+
+Lemma iset_union_trim A B : canonical A -> canonical B -> iset_union A B = trim_touches (k_union A B).
+Proof.
+  intros Ha Hb. pose proof (union_raw_wf A B Ha Hb) as Hw.
+  destruct (weakly_canonical_sorted _ Hw) as (S1 & S2 & S3).
+  unfold iset_union, mk_iset_pairs, mk_iset.
+  rewrite (sortedZ_sortZ_id _ S1), (sortedZ_sortZ_id _ S2), combine_map_fst_snd.
+  apply fix_iset_trim. exact Hw.
+Qed.
+
+Lemma iset_inter_raw A B : canonical A -> canonical B -> iset_inter A B = k_inter A B.
+Proof. intros Ha Hb. unfold iset_inter. apply mk_iset_canonical_id. apply inter_raw_canonical; assumption. Qed.
+
+Lemma iset_diff_raw A B : canonical A -> canonical B -> iset_diff A B = k_diff A B.
+Proof. intros Ha Hb. unfold iset_diff. apply mk_iset_canonical_id. apply diff_raw_canonical; assumption. Qed.
+
+(* endpoints of the trimmed list: starts are starts; an end is an end, or an end that is also the next start, minus 1 us *)
+Lemma trim_go_endpoints : forall W ns ne,
+  Forall (fun I => In (fst I) (ns :: starts W)
+                   /\ (In (snd I) (ne :: ends W)
+                       \/ (In (snd I + us) (ne :: ends W) /\ In (snd I + us) (starts W)))) (trim_go ns ne W).
+Proof.
+  induction W as [|[s e] r IH]; intros ns ne; cbn [trim_go].
+  - unfold close_pending. destruct (ns <? ne); constructor; [|constructor]. simpl. auto.
+  - apply Forall_app. split.
+    + unfold close_pending. destruct (Z.eqb_spec ne s) as [->|N].
+      * destruct (ns <? s - us); constructor; [|constructor]. cbn [fst snd starts ends map].
+        split; [left; reflexivity|]. right. replace (s - us + us) with s by lia. split; left; reflexivity.
+      * destruct (ns <? ne); constructor; [|constructor]. simpl. auto.
+    + eapply Forall_impl; [|apply IH]. cbv beta. intros I (H1 & H2). cbn [starts ends map] in *. split.
+      * right. exact H1.
+      * destruct H2 as [H2|(H2 & H3)]; [left; right; exact H2|right]. split; [right; exact H2|right; exact H3].
+Qed.
+
+Lemma canon_after lo A p : canon lo A -> (In p (starts A) \/ In p (ends A)) -> lo < p.
+Proof.
+  revert lo. induction A as [|[s e] r IH]; intros lo H Hp; simpl in *; [tauto|].
+  destruct H as (H1 & H2 & H3).
+  destruct Hp as [[Hp|Hp]|[Hp|Hp]]; try lia; (assert (e < p) by (apply IH; auto); lia).
+Qed.
+
+Lemma canon_end_not_start lo A p : canon lo A -> In p (ends A) -> In p (starts A) -> False.
+Proof.
+  revert lo. induction A as [|[s e] r IH]; intros lo H He Hs; simpl in *; [tauto|].
+  destruct H as (H1 & H2 & H3).
+  destruct He as [He|He]; destruct Hs as [Hs|Hs].
+  - lia.
+  - assert (e < p) by (eapply canon_after; eauto). lia.
+  - assert (e < p) by (eapply canon_after; eauto). lia.
+  - eapply IH; eauto.
+Qed.
+
+Lemma wrapper_union_endpoints A B : canonical A -> canonical B ->
+  Forall (fun I => (In (fst I) (starts A) \/ In (fst I) (starts B))
+                   /\ ((In (snd I) (ends A) \/ In (snd I) (ends B)) \/ touch_point (snd I + us) A B)) (iset_union A B).
+Proof.
+  intros Ha Hb. rewrite (iset_union_trim A B Ha Hb).
+  pose proof (union_starts_ends A B Ha Hb) as HS. rewrite Forall_forall in HS.
+  destruct (canonical_canon A Ha) as [la Hca]. destruct (canonical_canon B Hb) as [lb Hcb].
+  assert (HSs : forall p, In p (starts (k_union A B)) -> In p (starts A) \/ In p (starts B)).
+  { intros p Hp. apply in_map_iff in Hp. destruct Hp as (I & <- & HI). apply (HS I HI). }
+  assert (HSe : forall p, In p (ends (k_union A B)) -> In p (ends A) \/ In p (ends B)).
+  { intros p Hp. apply in_map_iff in Hp. destruct Hp as (I & <- & HI). apply (HS I HI). }
+  destruct (k_union A B) as [|[s e] r] eqn:E; [constructor|]. cbn [trim_touches].
+  eapply Forall_impl; [|apply trim_go_endpoints]. cbv beta. intros I (H1 & H2).
+  split; [apply HSs; exact H1|].
+  destruct H2 as [H2|(H2 & H3)]; [left; apply HSe; exact H2|right].
+  assert (K1 : In (snd I + us) (ends A) \/ In (snd I + us) (ends B)) by (apply HSe; exact H2).
+  assert (K2 : In (snd I + us) (starts A) \/ In (snd I + us) (starts B)) by (apply HSs; right; exact H3).
+  unfold touch_point. destruct K1 as [K1|K1]; destruct K2 as [K2|K2].
+  - exfalso. exact (canon_end_not_start la A _ Hca K1 K2).
+  - left. split; assumption.
+  - right. split; assumption.
+  - exfalso. exact (canon_end_not_start lb B _ Hcb K1 K2).
+Qed.
+
+(* ---- durations through the wrappers: at most 1 us is lost per junction ---- *)
+Fixpoint touch_list (ne : Z) (W : iset) : list Z :=
+  match W with
+  | [] => []
+  | (s, e) :: r => (if ne =? s then [s] else []) ++ touch_list e r
+  end.
+
+(* the junctions of A and B: the instants where an interval of one ends exactly where an interval of the other starts *)
+Definition junction_list (A B : iset) : list Z :=
+  filter (fun p => existsb (Z.eqb p) (starts B)) (ends A) ++ filter (fun p => existsb (Z.eqb p) (starts A)) (ends B).
+
+Lemma touch_point_junction p A B : touch_point p A B -> In p (junction_list A B).
+Proof.
+  unfold touch_point, junction_list. intros [(H1 & H2)|(H1 & H2)]; apply in_or_app; [left|right];
+    apply filter_In; (split; [exact H1|]); apply existsb_exists; exists p; (split; [exact H2|apply Z.eqb_refl]).
+Qed.
+
+Lemma trim_go_measure : forall W ns ne, weakly_canonical ((ns, ne) :: W) ->
+  (ne - ns) + tot_length W - us * Z.of_nat (length (touch_list ne W)) <= tot_length (trim_go ns ne W)
+  /\ tot_length (trim_go ns ne W) <= (ne - ns) + tot_length W.
+Proof.
+  induction W as [|[s e] r IH]; intros ns ne H.
+  - simpl in H. cbn [trim_go touch_list tot_length length]. unfold close_pending.
+    destruct (Z.ltb_spec ns ne); simpl; lia.
+  - assert (H' := H). simpl in H'. destruct H' as (H1 & H2 & H3).
+    specialize (IH s e H3). cbn [trim_go touch_list tot_length]. rewrite tot_length_app, app_length.
+    unfold close_pending. unfold us in *. destruct (Z.eqb_spec ne s) as [E|N]; cbn [length].
+    + destruct (Z.ltb_spec ns (ne - 1000)); simpl tot_length; lia.
+    + destruct (Z.ltb_spec ns ne); simpl tot_length; lia.
+Qed.
+
+Lemma touch_list_ge : forall W ns ne, weakly_canonical ((ns, ne) :: W) -> Forall (fun p => ne <= p) (touch_list ne W).
+Proof.
+  induction W as [|[s e] r IH]; intros ns ne H; [constructor|].
+  assert (H' := H). simpl in H'. destruct H' as (H1 & H2 & H3). cbn [touch_list].
+  assert (s < e) by (simpl in H3; tauto).
+  apply Forall_app. split.
+  - destruct (ne =? s); constructor; [lia|constructor].
+  - eapply Forall_impl; [|apply (IH s e H3)]. cbv beta. intros; lia.
+Qed.
+
+Lemma touch_list_NoDup : forall W ns ne, weakly_canonical ((ns, ne) :: W) -> NoDup (touch_list ne W).
+Proof.
+  induction W as [|[s e] r IH]; intros ns ne H; [constructor|].
+  assert (H' := H). simpl in H'. destruct H' as (H1 & H2 & H3). cbn [touch_list].
+  assert (s < e) by (simpl in H3; tauto).
+  pose proof (touch_list_ge r s e H3) as G. rewrite Forall_forall in G.
+  destruct (ne =? s); cbn [app]; [|apply (IH s e H3)].
+  constructor; [|apply (IH s e H3)]. intros Hin. specialize (G _ Hin). lia.
+Qed.
+
+Lemma touch_list_in : forall W ne p, In p (touch_list ne W) -> In p (ne :: ends W) /\ In p (starts W).
+Proof.
+  induction W as [|[s e] r IH]; intros ne p H; [destruct H|].
+  cbn [touch_list] in H. apply in_app_or in H. cbn [starts ends map]. destruct H as [H|H].
+  - destruct (Z.eqb_spec ne s) as [E|N]; [|destruct H]. destruct H as [<-|[]]. split; left; auto.
+  - destruct (IH e p H) as (K1 & K2). split; right; [exact K1|exact K2].
+Qed.
+
+Lemma wrapper_union_measure A B : canonical A -> canonical B ->
+  tot_length A + tot_length B - us * Z.of_nat (length (junction_list A B))
+    <= tot_length (iset_union A B) + tot_length (iset_inter A B)
+  /\ tot_length (iset_union A B) + tot_length (iset_inter A B) <= tot_length A + tot_length B.
+Proof.
+  intros Ha Hb. rewrite (iset_union_trim A B Ha Hb), (iset_inter_raw A B Ha Hb).
+  pose proof (union_measure A B Ha Hb) as M.
+  pose proof (union_raw_wf A B Ha Hb) as Hw.
+  pose proof (union_starts_ends A B Ha Hb) as HS. rewrite Forall_forall in HS.
+  destruct (canonical_canon A Ha) as [la Hca]. destruct (canonical_canon B Hb) as [lb Hcb].
+  assert (HSs : forall p, In p (starts (k_union A B)) -> In p (starts A) \/ In p (starts B)).
+  { intros p Hp. apply in_map_iff in Hp. destruct Hp as (I & <- & HI). apply (HS I HI). }
+  assert (HSe : forall p, In p (ends (k_union A B)) -> In p (ends A) \/ In p (ends B)).
+  { intros p Hp. apply in_map_iff in Hp. destruct Hp as (I & <- & HI). apply (HS I HI). }
+  destruct (k_union A B) as [|[s e] r] eqn:E.
+  - cbn [trim_touches tot_length] in *. assert (0 <= Z.of_nat (length (junction_list A B))) by lia. unfold us. lia.
+  - cbn [trim_touches]. destruct (trim_go_measure r s e Hw) as (L1 & L2). cbn [tot_length] in M.
+    assert (Hlen : (length (touch_list e r) <= length (junction_list A B))%nat).
+    { apply NoDup_incl_length; [apply (touch_list_NoDup r s e Hw)|].
+      intros p Hp. apply touch_point_junction. destruct (touch_list_in r e p Hp) as (K1 & K2).
+      assert (K1' : In p (ends A) \/ In p (ends B)) by (apply HSe; exact K1).
+      assert (K2' : In p (starts A) \/ In p (starts B)) by (apply HSs; right; exact K2).
+      unfold touch_point. destruct K1' as [K1'|K1']; destruct K2' as [K2'|K2'].
+      - exfalso. exact (canon_end_not_start la A _ Hca K1' K2').
+      - left. split; assumption.
+      - right. split; assumption.
+      - exfalso. exact (canon_end_not_start lb B _ Hcb K1' K2'). }
+    unfold us in *. nia.
+Qed.
+
+Lemma wrapper_diff_measure A B : canonical A -> canonical B ->
+  tot_length (iset_diff A B) = tot_length A - tot_length (iset_inter A B).
+Proof. intros Ha Hb. rewrite (iset_diff_raw A B Ha Hb), (iset_inter_raw A B Ha Hb). apply diff_measure; assumption. Qed.
+
+(* --- what the constructor does to the three raw outputs: nothing to intersect / set_diff, a trim at the touches of union --- *)
+Theorem C02_wrappers_raw : forall A B, canonical A -> canonical B ->
+  iset_inter A B = k_inter A B /\ iset_diff A B = k_diff A B /\ iset_union A B = trim_touches (k_union A B).
+Proof. intros A B Ha Hb. repeat split; [apply iset_inter_raw|apply iset_diff_raw|apply iset_union_trim]; assumption. Qed.
+Print Assumptions C02_wrappers_raw.
+
+(* --- endpoints of the public results: every start is a start of an operand; every end is an end of an operand or,
+       for union only, a junction (end of one operand = start of the other) minus 1 us --- *)
+Theorem C02_endpoints_union_wrapper : forall A B, canonical A -> canonical B ->
+  Forall (fun I => (In (fst I) (starts A) \/ In (fst I) (starts B))
+                   /\ ((In (snd I) (ends A) \/ In (snd I) (ends B)) \/ touch_point (snd I + us) A B)) (iset_union A B).
+Proof. exact wrapper_union_endpoints. Qed.
+Print Assumptions C02_endpoints_union_wrapper.
+
+Theorem C02_endpoints_inter_diff_wrappers : forall A B, canonical A -> canonical B ->
+  Forall (fun I => (InterDiffProofs.endpoint (fst I) A \/ InterDiffProofs.endpoint (fst I) B)
+                   /\ (InterDiffProofs.endpoint (snd I) A \/ InterDiffProofs.endpoint (snd I) B)) (iset_inter A B)
+  /\ Forall (fun I => (InterDiffProofs.endpoint (fst I) A \/ InterDiffProofs.endpoint (fst I) B)
+                      /\ (InterDiffProofs.endpoint (snd I) A \/ InterDiffProofs.endpoint (snd I) B)) (iset_diff A B).
+Proof.
+  intros A B Ha Hb. rewrite (iset_inter_raw A B Ha Hb), (iset_diff_raw A B Ha Hb).
+  destruct (inter_endpoints A B) as [I1 I2]. destruct (diff_endpoints A B) as [D1 D2].
+  rewrite Forall_forall in I1, I2, D1, D2.
+  split; apply Forall_forall; intros I HI; split; auto.
+Qed.
+Print Assumptions C02_endpoints_inter_diff_wrappers.
+
+(* --- commutativity at list level: kernel and public results --- *)
+Theorem C02_union_comm_list : forall A B, canonical A -> canonical B -> k_union A B = k_union B A.
+Proof. exact union_comm. Qed.
+Print Assumptions C02_union_comm_list.
+
+Theorem C02_wrappers_comm : forall A B, canonical A -> canonical B ->
+  iset_union A B = iset_union B A /\ iset_inter A B = iset_inter B A.
+Proof.
+  intros A B Ha Hb. unfold iset_union, iset_inter.
+  rewrite (union_comm A B Ha Hb), (inter_comm A B Ha Hb). split; reflexivity.
+Qed.
+Print Assumptions C02_wrappers_comm.
+
+(* --- idempotent / absorbing, public results, both operand orders --- *)
+Theorem C02_wrappers_idempotent_absorbing : forall A, canonical A ->
+  iset_inter A A = A /\ iset_union A A = A /\ iset_diff A A = []
+  /\ iset_union A [] = A /\ iset_union [] A = A /\ iset_inter A [] = [] /\ iset_inter [] A = []
+  /\ iset_diff A [] = A /\ iset_diff [] A = [].
+Proof.
+  intros A Ha. unfold iset_inter, iset_union, iset_diff.
+  rewrite (inter_idem A Ha), (union_idem A Ha), (diff_self A Ha), (diff_empty_r A),
+          (proj1 (union_empty A)), (proj2 (union_empty A)), (proj1 (inter_empty A)), (proj2 (inter_empty A)), (diff_empty A).
+  rewrite (mk_iset_canonical_id A Ha). repeat split; reflexivity.
+Qed.
+Print Assumptions C02_wrappers_idempotent_absorbing.
+
+(* --- durations of the public results: exact for set_diff; for union at most 1 us is lost per junction of A and B
+       (junction_list: the ends of one operand that are starts of the other) and nothing is gained --- *)
+Theorem C02_union_measure_wrapper : forall A B, canonical A -> canonical B ->
+  tot_length A + tot_length B - us * Z.of_nat (length (junction_list A B))
+    <= tot_length (iset_union A B) + tot_length (iset_inter A B)
+  /\ tot_length (iset_union A B) + tot_length (iset_inter A B) <= tot_length A + tot_length B.
+Proof. exact wrapper_union_measure. Qed.
+Print Assumptions C02_union_measure_wrapper.
+
+Theorem C02_diff_measure_wrapper : forall A B, canonical A -> canonical B ->
+  tot_length (iset_diff A B) = tot_length A - tot_length (iset_inter A B).
+Proof. exact wrapper_diff_measure. Qed.
+Print Assumptions C02_diff_measure_wrapper.
+
+(* the 1 us per junction is really lost: two touching operands *)
+Example C02_union_measure_wrapper_tight :
+  iset_union [(0, 5000)] [(5000, 9000)] = [(0, 4000); (5000, 9000)] /\ junction_list [(0, 5000)] [(5000, 9000)] = [5000].
+Proof. vm_compute. split; reflexivity. Qed.
 
 Example C02_nonvacuous :
   canonical [(0, 10); (20, 30)] /\ canonical [(5, 25); (30, 40)]
